@@ -12,7 +12,7 @@ NOT_DECIDED = ["all arrival times of the C-CANCEL relative to the clearing assig
 
 
 def tasks(tier):
-    return [S.IsCancelledTask(), S.ReceiveCancelTask(), S.ServeTask()]
+    return [S.IsCancelledTask(), S.ReceiveCancelTask(), S.ServeTask(), S.DimseInitTask()]
 
 
 def replay(rec):
